@@ -53,7 +53,7 @@ Definition transitionSeen (sLow sHigh : Z) (mask : N) : N := maskT (classify sLo
 Section Loc.
 Context {T:Type} (K:NumOps T).
 
-Definition sgn (x:T) : Z := if nltb K (n0 K) x then 1%Z else if nltb K x (n0 K) then (-1)%Z else 0%Z.  (* SimTK::sign *)
+Definition sgnT (x:T) : Z := if nltb K (n0 K) x then 1%Z else if nltb K x (n0 K) then (-1)%Z else 0%Z.  (* SimTK::sign *)
 Definition nmin (a b:T) : T := if nltb K b a then b else a.          (* std::min(a,b) *)
 Definition nmax (a b:T) : T := if nltb K a b then b else a.          (* std::max(a,b) *)
 Definition omin (o:option T) (x:T) : T := match o with None => x | Some a => nmin a x end.
@@ -85,7 +85,7 @@ Variable info : list trig_info.
 Variable accw : T.      (* accuracyInUse*timeScaleInUse *)
 
 Definition seenAt (eLow eHigh : list T) (i:nat) : N :=
-  transitionSeen (sgn (nth i eLow (n0 K))) (sgn (nth i eHigh (n0 K))) (ti_mask (nth i info no_info)).
+  transitionSeen (sgnT (nth i eLow (n0 K))) (sgnT (nth i eHigh (n0 K))) (ti_mask (nth i info no_info)).
 
 (** one pass of the loop body of findEventCandidates, accumulator = (candidates so far, earliest, narrowest) *)
 Definition fec_step (tLow:T) (eLow:list T) (tHigh:T) (eHigh:list T) (bias minWindow:T) (acc:fec) (i:nat) : fec :=
@@ -250,19 +250,21 @@ Definition sub_next_step (t:Q) (incl:bool) (acc:tinf * list nat) (h:shandler) : 
 Definition sub_next (hs:list shandler) (t:Q) (incl:bool) : tinf * list nat :=
   fold_left (sub_next_step t incl) hs (None, []).
 
-(** System::Guts::calcTimeOfNextScheduledEventImpl: loop over the subsystems.  As written,
+(** System::Guts::calcTimeOfNextScheduledEventImpl: loop over the subsystems.  As written in the source,
       if (time <= tNextEvent) { tNextEvent = time; if (time < tNextEvent) eventIds.clear(); append ids }
-    the clear can never execute (the comparison follows the assignment), so ids accumulate. *)
-Definition sys_next_step (sel:subsystem -> list shandler) (t:Q) (incl:bool) (acc:tinf * list nat) (ss:subsystem)
+    the clear can never execute (the comparison follows the assignment), so ids accumulate: [clearFirst = false].
+    [clearFirst = true] is the loop with the two statements in the intended order (patches/C22_sched_ids_not_cleared.diff);
+    the check determines on every run which of the two the implementation follows. *)
+Definition sys_next_step (clearFirst:bool) (sel:subsystem -> list shandler) (t:Q) (incl:bool) (acc:tinf * list nat) (ss:subsystem)
   : tinf * list nat :=
   let '(tNext, ids) := acc in
   let '(time, sids) := sub_next (sel ss) t incl in
   if ile time tNext then
-    let tNext' := time in
-    (tNext', (if ilt time tNext' then [] else ids) ++ sids)
+    let cmp := if clearFirst then tNext else time in     (* the value of tNextEvent the "<" test sees *)
+    (time, (if ilt time cmp then [] else ids) ++ sids)
   else acc.
-Definition sys_next (sel:subsystem -> list shandler) (subs:list subsystem) (t:Q) (incl:bool) : tinf * list nat :=
-  fold_left (sys_next_step sel t incl) subs (None, []).
+Definition sys_next (clearFirst:bool) (sel:subsystem -> list shandler) (subs:list subsystem) (t:Q) (incl:bool) : tinf * list nat :=
+  fold_left (sys_next_step clearFirst sel t incl) subs (None, []).
 
 (** handler call log *)
 Inductive cause := CTriggered | CScheduled | CTimeAdvanced | CTermination | CReport.
@@ -294,6 +296,7 @@ Fixpoint run_reporters (hs:list shandler) (ids:list nat) (t:Q) (st:S) : list cal
   end.
 
 (** system description *)
+Variable clearFirst : bool.               (* which variant of the System-level loop (see sys_next_step) *)
 Variable subs : list subsystem.
 Variable thandlers : list thandler.        (* triggered handlers of the default subsystem *)
 Variable flow : S -> Q -> Q -> S.          (* the trajectory: state at t' reached from the state at t *)
@@ -332,8 +335,8 @@ Definition mk_use (time:Q) (s:tstate) (a:ians) : iuse :=
   let tcur := ts_t s in
   let ie := neq_last (ts_lastEvent s) tcur in
   let ir := neq_last (ts_lastReport s) tcur in
-  let '(nextEv, evIds) := sys_next ss_handlers subs tcur ie in
-  let '(nextRep, repIds) := sys_next ss_reporters subs tcur ir in
+  let '(nextEv, evIds) := sys_next clearFirst ss_handlers subs tcur ie in
+  let '(nextRep, repIds) := sys_next clearFirst ss_reporters subs tcur ir in
   {| u_tcur := tcur; u_tadv := ts_tadv s; u_inclEv := ie; u_inclRep := ir; u_nextEv := nextEv; u_nextRep := nextRep;
      u_report := imin nextRep (Some time); u_event := imin nextEv (Some time); u_ans := a;
      u_evids := evIds; u_repids := repIds |}.
